@@ -221,7 +221,7 @@ func main() {
 
 func roundTrip(rep *report.Report) {
 	methods := []string{"OPTIONS", "DESCRIBE", "ANNOUNCE", "SETUP", "PLAY", "PAUSE", "TEARDOWN", "GET_PARAMETER", "SET_PARAMETER", "RECORD", "REDIRECT", "FOO"}
-	urls := []string{"rtsp://h/p", "rtsp://h:8554/a/b?q=1", "rtsp://[::1]/p", "rtsp://[::1]:554/p", "rtsp://u:pw@h/p/trackID=1"}
+	urls := []string{"rtsp://h/p", "rtsp://h:8554/a/b?q=1", "rtsp://[::1]/p", "rtsp://[::1]:554/p", "rtsp://u:pw@h/p/trackID=1", "rtsp://h/" + strings.Repeat("seg/", 1500) + "x"}
 	headerSets := []map[string][]string{
 		{"CSeq": {"1"}},
 		{"CSeq": {"2"}, "Session": {"abc;timeout=60"}},
@@ -229,6 +229,11 @@ func roundTrip(rep *report.Report) {
 		{"CSeq": {"4"}, "Accept": {"application/sdp", "text/plain"}},
 		{"CSeq": {"5"}, "X-Custom-Thing": {"v1"}, "Range": {"npt=0.000-"}},
 		{"cseq": {"6"}, "content-type": {"application/sdp"}},
+		// header lines longer than the connection reader's buffer (4 KiB here, as on the WSP path) but
+		// inside the 16 KiB line limit: assembled from several reads of the buffered reader
+		{"CSeq": {"7"}, "X-Long": {strings.Repeat("abcdefghij", 500)}},
+		{"CSeq": {"8"}, "X-Long": {strings.Repeat("0123456789abcdef", 750)}, "Session": {"s1"}},
+		{"CSeq": {"9"}, "Authorization": {"Digest " + strings.Repeat("k=\"v\", ", 1800) + "z=1"}},
 	}
 	bodies := []string{"", "x", "v=0\r\no=- 0 0 IN IP4 0.0.0.0\r\n", strings.Repeat("ab\r\n", 1024), strings.Repeat("z", 70000)}
 	type dev struct {
